@@ -1712,3 +1712,184 @@ theorem dtail_case_clause_more {sub l₁ rest l key c as atoms pre last clauses}
       (.if_else (isList_ofList _ _) rfl h)⟩
 
 end Ruschm.Macro
+
+/-! ## the transformer: a successfully transformed expression leaves the syntax environment as it was -/
+
+namespace Ruschm.Xform
+namespace Keep
+
+/-- a successful run whose result satisfies `P` leaves the syntax environment as it was -/
+structure KeepIf {α} (P : α → Prop) (m : XM α) : Prop where
+  keep : ∀ s a s', m s = (.ok a, s') → P a → s' = s
+/-- `m` never succeeds with a result satisfying `P` -/
+structure Never {α} (P : α → Prop) (m : XM α) : Prop where
+  never : ∀ s a s', m s = (.ok a, s') → ¬ P a
+
+abbrev Tt {α} : α → Prop := fun _ => True
+
+theorem bind_run {α β} (m : XM α) (f : α → XM β) (s : SynEnv) :
+    (m >>= f) s = match m s with
+      | (.ok a, s') => f a s'
+      | (.error e, s') => (.error e, s') := rfl
+
+theorem bind_ok {α β} {m : XM α} {f : α → XM β} {s b s'} (h : (m >>= f) s = (.ok b, s')) :
+    ∃ a s₁, m s = (.ok a, s₁) ∧ f a s₁ = (.ok b, s') := by
+  rw [bind_run] at h
+  generalize m s = x at h
+  obtain ⟨r, s₁⟩ := x
+  cases r with
+  | error e => cases h
+  | ok a => exact ⟨a, s₁, rfl, h⟩
+
+variable {α β : Type} {P : β → Prop} {Q : α → Prop}
+
+theorem KeepIf.pure (b : β) : KeepIf P (pure b : XM β) := ⟨fun _ _ _ h _ => by cases h; rfl⟩
+theorem KeepIf.fail (e : SErr) : KeepIf P (fail e : XM β) := ⟨fun _ _ _ h _ => by cases h⟩
+theorem KeepIf.lift (x : Except SErr β) : KeepIf P (lift x) := ⟨fun _ _ _ h _ => by
+  simp only [Xform.lift, Prod.mk.injEq] at h; exact h.2.symm⟩
+theorem KeepIf.need (x : Option β) : KeepIf P (need x) := by
+  cases x
+  · exact KeepIf.fail _
+  · exact KeepIf.pure _
+theorem KeepIf.identOf (d : Datum) : KeepIf Q' (identOf d) := KeepIf.lift _
+theorem KeepIf.expectList (d : Datum) : KeepIf Q' (expectList d) := KeepIf.lift _
+theorem KeepIf.getEnv : KeepIf Q' getEnv := ⟨fun _ _ _ h _ => by cases h; rfl⟩
+
+theorem Never.pure {b : β} (hb : ¬ P b) : Never P (pure b : XM β) := ⟨fun _ _ _ h => by cases h; exact hb⟩
+theorem Never.fail (e : SErr) : Never P (fail e : XM β) := ⟨fun _ _ _ h => by cases h⟩
+theorem Never.bind {m : XM α} {f : α → XM β} (hf : ∀ a, Never P (f a)) : Never P (m >>= f) := by
+  refine ⟨fun s b s' h => ?_⟩
+  obtain ⟨a, s₁, _, h₂⟩ := bind_ok h
+  exact (hf a).never _ _ _ h₂
+
+theorem KeepIf.of_never {m : XM β} (h : Never P m) : KeepIf P m := ⟨fun s a s' hr hp => absurd hp (h.never s a s' hr)⟩
+
+/-- sequencing: the first step keeps the environment whenever its result satisfies `Q`; the second
+is run only on such results (on the others it cannot produce a `P`) -/
+theorem KeepIf.bind_if {m : XM α} {f : α → XM β} (hm : KeepIf Q m) (hf : ∀ a, Q a → KeepIf P (f a))
+    (hn : ∀ a, ¬ Q a → Never P (f a)) : KeepIf P (m >>= f) := by
+  refine ⟨fun s b s' h hp => ?_⟩
+  obtain ⟨a, s₁, h₁, h₂⟩ := bind_ok h
+  by_cases hq : Q a
+  · have := hm.keep s a s₁ h₁ hq
+    subst this
+    exact (hf a hq).keep _ _ _ h₂ hp
+  · exact absurd hp ((hn a hq).never _ _ _ h₂)
+
+theorem KeepIf.bind {m : XM α} {f : α → XM β} (hm : KeepIf Tt m) (hf : ∀ a, KeepIf P (f a)) : KeepIf P (m >>= f) :=
+  KeepIf.bind_if (Q := Tt) hm (fun a _ => hf a) (fun _ h => absurd trivial h)
+
+theorem KeepIf.inChild {m : XM β} (hm : KeepIf P m) : KeepIf P (inChild m) := by
+  refine ⟨fun s b s' h hp => ?_⟩
+  simp only [Xform.inChild] at h
+  generalize hx : m ([] :: s) = x at h
+  obtain ⟨r, e⟩ := x
+  cases e with
+  | nil => simp only [Prod.mk.injEq] at h; obtain ⟨rfl, rfl⟩ := h; have := hm.keep _ _ _ hx hp; cases this
+  | cons c e' =>
+    simp only [Prod.mk.injEq] at h
+    obtain ⟨rfl, rfl⟩ := h
+    have := hm.keep _ _ _ hx hp
+    cases this; rfl
+
+theorem KeepIf.toFormals (d : Datum) : KeepIf Q' (toFormals d) := by
+  unfold Xform.toFormals
+  split
+  · simp only; split
+    · exact KeepIf.fail _
+    · exact KeepIf.pure _
+  · simp only; split
+    · exact KeepIf.fail _
+    · exact KeepIf.pure _
+  · exact KeepIf.pure _
+  · exact KeepIf.fail _
+
+end Keep
+end Ruschm.Xform
+
+namespace Ruschm.Xform
+namespace Keep
+
+/-- the statements an expression context accepts: expressions and definitions -/
+def IsED : Statement → Prop
+  | .expr _ => True
+  | .definition _ => True
+  | _ => False
+
+theorem never_lib : ∀ n args loc, Never IsED (toLibrary n args loc)
+  | 0, _, _ => by rw [toLibrary]; exact Never.fail _
+  | n+1, _, _ => by
+    rw [toLibrary]
+    repeat (first | focus (apply Never.pure; simp [IsED]; done) | apply Never.bind | intro _)
+
+structure KeepAll (n : Nat) : Prop where
+  stmt : ∀ d, KeepIf IsED (toStatement n d)
+  expr : ∀ d, KeepIf Tt (toExpr n d)
+  call : ∀ f a l, KeepIf Tt (toCall n f a l)
+  exprs : ∀ ds, KeepIf Tt (toExprs n ds)
+  defn : ∀ args, KeepIf Tt (toDefinition n args)
+  lam : ∀ args, KeepIf Tt (toLambda n args)
+  body : ∀ ds defs exprs, KeepIf Tt (toBody n ds defs exprs)
+
+syntax "keep_close" : tactic
+macro_rules
+  | `(tactic| keep_close) => `(tactic| first
+      | exact KeepIf.fail _ | exact KeepIf.pure _ | exact KeepIf.lift _ | exact KeepIf.need _ | exact KeepIf.identOf _
+      | exact KeepIf.expectList _ | exact KeepIf.getEnv | exact KeepIf.toFormals _)
+
+syntax "keep_never" : tactic
+macro_rules
+  | `(tactic| keep_never) => `(tactic| focus (apply KeepIf.of_never; (repeat (first | focus (apply Never.pure; simp [IsED]; done) | exact Never.fail _ | exact never_lib _ _ _ | apply Never.bind | intro _)); done))
+
+syntax "keep_all" term : tactic
+macro_rules
+  | `(tactic| keep_all $ih) => `(tactic| repeat (first
+      | keep_close
+      | exact KeepAll.stmt $ih _ | exact KeepAll.expr $ih _ | exact KeepAll.call $ih _ _ _ | exact KeepAll.exprs $ih _
+      | exact KeepAll.defn $ih _ | exact KeepAll.lam $ih _ | exact KeepAll.body $ih _ _ _
+      | keep_never
+      | apply KeepIf.inChild | apply KeepIf.bind | intro _ | split | dsimp only))
+
+section
+variable {n : Nat} (ih : KeepAll n)
+include ih
+
+theorem keep_stmt (d : Datum) : KeepIf IsED (toStatement (n+1) d) := by
+  unfold toStatement; keep_all ih
+
+theorem keep_expr (d : Datum) : KeepIf Tt (toExpr (n+1) d) := by
+  rw [toExpr]
+  refine KeepIf.bind_if (Q := IsED) (ih.stmt d) (fun a _ => ?_) (fun a hq => ?_)
+  · split
+    · exact KeepIf.pure _
+    · exact KeepIf.fail _
+  · cases a <;> first | exact absurd trivial hq | exact Never.fail _
+
+theorem keep_call (f a l) : KeepIf Tt (toCall (n+1) f a l) := by
+  rw [toCall]; keep_all ih
+theorem keep_exprs (ds) : KeepIf Tt (toExprs (n+1) ds) := by
+  cases ds <;> rw [toExprs] <;> keep_all ih
+theorem keep_defn (args) : KeepIf Tt (toDefinition (n+1) args) := by
+  rw [toDefinition]; keep_all ih
+theorem keep_lam (args) : KeepIf Tt (toLambda (n+1) args) := by
+  rw [toLambda]; keep_all ih
+theorem keep_body (ds defs exprs) : KeepIf Tt (toBody (n+1) ds defs exprs) := by
+  cases ds with
+  | nil => rw [toBody]; keep_all ih
+  | cons d ds =>
+    rw [toBody]
+    refine KeepIf.bind_if (Q := IsED) (ih.stmt d) (fun a _ => ?_) (fun a hq => ?_)
+    · keep_all ih
+    · cases a <;> first | exact absurd trivial hq | exact Never.fail _
+end
+
+theorem keepAll : ∀ n, KeepAll n
+  | 0 => by
+    constructor <;> intros <;>
+      simp only [toStatement, toExpr, toCall, toExprs, toDefinition, toLambda, toBody] <;> exact KeepIf.fail _
+  | n+1 =>
+    have ih := keepAll n
+    ⟨keep_stmt ih, keep_expr ih, keep_call ih, keep_exprs ih, keep_defn ih, keep_lam ih, keep_body ih⟩
+
+end Keep
+end Ruschm.Xform
